@@ -60,7 +60,7 @@ def hist_fallback(txt):
 def rt_case(spec):
     """never raises: every outcome of the implementation is an observation in the case term"""
     server = is_request(spec[0])
-    term, o, err = L.safe_obj_term(lambda: L.build(spec))
+    term, o, err = L.safe_obj_term(lambda: L.build(spec), spec)
     if err is not None:
         u = L.unexpected("bytes", "cannot build/dump %s: %s" % (spec[0], err))
         t = "(%s, OIllegal 0, %s, %s, %s, %s, %s)" % ("true" if server else "false", u, u, DFLT_O, DFLT_B, DFLT_O)
@@ -109,7 +109,7 @@ def suite_rt(tier):
 def hist_case(r, spec, pool):
     """never raises: see rt_case"""
     name = spec[0]
-    term, o, err = L.safe_obj_term(lambda: L.build(spec))
+    term, o, err = L.safe_obj_term(lambda: L.build(spec), spec)
     if err is not None:
         t = "(OIllegal 0, %s, %s)" % (lst([]), lst(["HOUnexpected %s" % L.what("cannot build/dump %s: %s" % (name, err))]))
         return Case(t, {"class": name, "spec": repr(spec[1:])[:2000], "ops": [], "outs": [], "unexpected": True},
